@@ -31,3 +31,5 @@ def run(ctx):
     H.r14_9_get_value_text(ctx, 'R16.7', dump_side=False)
     from . import round3 as R3
     R3.r16_8_conversion_errors(ctx, 'R16.8')
+    from . import memo_rules as M
+    M.memo_sound(ctx, 'R16.M')
